@@ -399,9 +399,10 @@ func vfC13ShapeDeletedRole(post *vfC13Model, held map[string]string, pos uint64)
 	return "", ""
 }
 
-// vfC13ShapeRoleClip: the user has been assigned role R without interruption, but the earliest
-// current source of that assignment is newer than the moment R stopped conferring channel X (an
-// older source was dropped after a newer one appeared). Past access periods through a current role
+// vfC13ShapeRoleClip: the user is assigned role R with an assignment stamp newer than the replica's
+// position (an older assignment source was dropped after a newer one appeared, or the assignment
+// was lost and regained before the user was next loaded), and R stopped conferring channel X at or
+// after that position. Past access periods through a current role
 // are clipped to the current assignment stamp, so the period in which R conferred X vanishes and a
 // held document whose entry in X is newer than the position is not revoked.
 func vfC13ShapeRoleClip(post *vfC13Model, held map[string]string, pos uint64) (sig, detail string) {
@@ -418,7 +419,7 @@ func vfC13ShapeRoleClip(post *vfC13Model, held map[string]string, pos uint64) (s
 		for _, rn := range vfSortedKeys(roles) {
 			role := post.Roles[rn]
 			stamp := roles[rn]
-			if role == nil || !post.roleLive(rn) || post.MemStart[vfC13Client][rn] >= stamp {
+			if role == nil || !post.roleLive(rn) {
 				continue
 			}
 			cur := post.roleChans(rn)
@@ -458,8 +459,8 @@ func vfC13ShapeRecreatedHistory(pre, post *vfC13Model, o vfC13Op, held map[strin
 	if role == nil || !role.Deleted {
 		return "", ""
 	}
-	if _, assigned := pre.userRoles(vfC13Client)[o.ID]; !assigned {
-		return "", ""
+	if _, assigned := pre.userRoles(vfC13Client)[o.ID]; !assigned && pre.MemLast[vfC13Client][o.ID] < pos {
+		return "", "" // the user has not held the role since the replica's position
 	}
 	for _, id := range vfSortedKeys(held) {
 		if post.Visible(vfC13Client, id) {
@@ -502,8 +503,10 @@ func vfC13ShapeRecreatedRole(pre, post *vfC13Model, o vfC13Op, rep *vfC13Replica
 			if g.Access["role:"+o.ID][x] > pos {
 				continue
 			}
-			if _, had := preEff[x]; had && pre.Gap[vfC13Client][x] <= pos {
-				continue // access to X was continuous, the replica is up to date with it
+			if _, had := preEff[x]; had {
+				if ps := pre.Periods[vfC13Client][x]; len(ps) > 0 && ps[len(ps)-1].End == 0 && ps[len(ps)-1].Start <= pos {
+					continue // access to X has been continuous since the position, the replica is up to date with it
+				}
 			}
 			for _, id := range vfSortedKeys(post.Docs) {
 				d := post.Docs[id]
